@@ -97,6 +97,40 @@ fn sinks<I: ParseInst>(s: &str, st: &mut Stats) -> Result<(), String> {
         }
         limit += step;
     }
+    // a sink that formats a PURL itself while it is being written to (a logger that prefixes every
+    // line with a context value): re-entering Display on the same thread must work
+    {
+        struct Reentrant<'a, T: purl::PurlShape> {
+            other: &'a purl::GenericPurl<T>,
+            out: String,
+            inner: usize,
+        }
+        impl<T: purl::PurlShape> std::fmt::Write for Reentrant<'_, T> {
+            fn write_str(&mut self, s: &str) -> std::fmt::Result {
+                self.inner += self.other.to_string().len();
+                self.out.push_str(s);
+                Ok(())
+            }
+        }
+        let r = guard(|| {
+            let mut sink = Reentrant { other: &p, out: String::new(), inner: 0 };
+            let ok = write!(sink, "{p}").is_ok();
+            (ok, sink.out)
+        });
+        match r {
+            Err(m) => return Err(format!("[{}] formatting {full:?} into a sink that itself formats a PURL panicked: {m}", I::NAME)),
+            Ok((ok, out)) => {
+                if !ok || out != full {
+                    return Err(format!("[{}] formatting {full:?} into a sink that itself formats a PURL gives {out:?} (ok = {ok})", I::NAME));
+                }
+            },
+        }
+        if let Err(m) = crate::api::check_flags(&p, &full, I::NAME) {
+            if m.contains("panicked") {
+                return Err(m);
+            }
+        }
+    }
     st.class("formatted-into-failing-sinks");
     st.class_if(full.contains('?'), "formatted-with-qualifiers");
     Ok(())
@@ -229,6 +263,17 @@ fn o_program(c: &ProgramCase, st: &mut Stats) -> Result<(), String> {
     if c.program.ops.len() >= 2 {
         st.nontrivial(&(c.typed, &c.program), || json!(c.program));
     }
+    Ok(())
+}
+
+/// A name through the typed builder and, percent-encoded, through the typed parser and as the
+/// algorithm of a checksum.
+fn o_program_and_parse(c: &ProgramCase, st: &mut Stats) -> Result<(), String> {
+    o_program(c, st)?;
+    let enc: String = c.program.name.bytes().map(|b| format!("%{b:02X}")).collect();
+    o_string(&format!("pkg:{}/{enc}@1", c.program.ty), st)?;
+    o_string(&format!("pkg:generic/n?checksum={enc}:00ff"), st)?;
+    st.nontrivial(&("lc", c.program.ty.as_str(), c.program.name.as_str()), || json!({ "type": c.program.ty, "name": c.program.name }));
     Ok(())
 }
 
@@ -379,6 +424,19 @@ pub fn sections() -> Vec<Box<dyn Section>> {
             strategy: Box::new(|_| gfault()),
             oracle: o_fault,
             required: vec!["refused-past-the-scheme-check"],
+        }),
+        Box::new(Enumerated {
+            name: "short-names-over-length-changing-case-letters".into(),
+            total: Box::new(|t: Tier| 2 * crate::props::c10::names_total(crate::chars::length_changing_alphabet(), t.pick(3, 4))),
+            make: Box::new(|t: Tier, i| {
+                let a = crate::chars::length_changing_alphabet();
+                let n = crate::props::c10::names_total(a, t.pick(3, 4));
+                let name = crate::props::c10::name_from_index(a, t.pick(3, 4), i % n);
+                Some(ProgramCase { program: crate::buildprog::Program { ty: ["nuget", "pypi"][(i / n) as usize].into(), name, ops: vec![] }, typed: true })
+            }),
+            oracle: o_program_and_parse,
+            required: vec![],
+            complete: true,
         }),
         Box::new(Enumerated {
             name: "parse-token-language".into(),
